@@ -10,7 +10,7 @@ tagarg=""; [ -n "$tags" ] && tagarg="-tags $tags"
 $gobin test -vet=off -count=1 $tagarg -timeout 120s -run "$re" ./$pkg > /tmp/cs_clean.txt 2>&1; c=$?
 git apply _seed/$k/patch.diff || { echo "APPLY FAILED"; exit 2; }
 $gobin test -vet=off -count=1 $tagarg -timeout 120s -run "$re" ./$pkg > /tmp/cs_mut.txt 2>&1; m=$?
-rm -f $pkg/seed*_test.go
+rm -f $pkg/seed*_test.go $pkg/c06_seed*_test.go $pkg/c06_seed*_test.go $pkg/c06_seed*_test.go
 go test -vet=off -count=1 ./pkg/buffer ./pkg/tmutex ./pkg/waiter ./protocol/header ./protocol/network/fragmentation ./protocol/ports ./protocol/transport/tcpconntrack > /tmp/cs_suite.txt 2>&1; s=$?
 git checkout -q -- . ; git clean -fdq -e _seed
 echo "clean_demo_exit=$c mutated_demo_exit=$m suite_with_patch_exit=$s"
